@@ -5,5 +5,6 @@ import "verif/internal/pbt"
 func parts() []pbt.Part {
 	return []pbt.Part{
 		pbt.NewPart("store", 10, gen, run),
+		pbt.NewPart("http", 2, genHTTP, runHTTP),
 	}
 }
